@@ -293,6 +293,62 @@ func checkC16(c *Case, s *Stats) error {
 	if berr != nil {
 		return viol("valid-rejected", "constructor rejected %d strictly ascending indexes with equally many elements: %v", len(idx), berr)
 	}
+	if c.Scrib == 1 && len(idx) > 0 {
+		// history: the array object first held other content and is then re-initialised
+		first, _ := buildArray(kind, []int32{0, 3, 64, 65, 200, 4000}, []uint64{1, 2, 3, 4, 5, 6})
+		var e error
+		err := guard("Init on an array that already holds other content", func() error {
+			switch a := first.msg.(type) {
+			case *array.U16:
+				el := make([]uint16, len(raws))
+				for i, r := range raws {
+					el[i] = uint16(r)
+				}
+				e = a.Init(idx, el)
+			case *array.U32:
+				el := make([]uint32, len(raws))
+				for i, r := range raws {
+					el[i] = uint32(r)
+				}
+				e = a.Init(idx, el)
+			case *array.U64:
+				e = a.Init(idx, append([]uint64{}, raws...))
+			case *array.I16:
+				el := make([]int16, len(raws))
+				for i, r := range raws {
+					el[i] = int16(r)
+				}
+				e = a.Init(idx, el)
+			case *array.I32:
+				el := make([]int32, len(raws))
+				for i, r := range raws {
+					el[i] = int32(r)
+				}
+				e = a.Init(idx, el)
+			case *array.I64:
+				el := make([]int64, len(raws))
+				for i, r := range raws {
+					el[i] = int64(r)
+				}
+				e = a.Init(idx, el)
+			case *array.Array:
+				el := make([]arrStruct, len(raws))
+				for i, r := range raws {
+					el[i] = eltOf(kind, r).(arrStruct)
+				}
+				e = a.Init(idx, el)
+			}
+			return nil
+		})
+		if err != nil {
+			return err
+		}
+		if e != nil {
+			return viol("valid-rejected", "Init on an existing array rejected valid input: %v", e)
+		}
+		ta = first // everything below checks the re-initialised object
+		s.class("reinit_history")
+	}
 	// model
 	model := map[int32]uint64{}
 	for i, ix := range idx {
